@@ -61,6 +61,22 @@ CHECKS = {
             "STOP_SENDING with exactly c; finish() stays pending while acknowledgements are withheld, completes Ok after release, and the "
             "reader then gets all bytes and end-of-stream.",
             SIM_NOTE, "exhaustive enumeration of a bounded scenario grid executed on the real stack under a deterministic simulated environment"),
+    "C07": ("simx", "fault_enumeration", "DESIGN.md §6-C07",
+            "Fault = k (1..5, thorough 6) peer-opened streams of kind uni/bidi stalled at one of 7 positions (no byte at all; first byte of "
+            "the type; type only; first byte of a 2-byte session id; complete preamble then silence; preamble + one flow-control window "
+            "nobody reads; accepted by the application and never read) x 3 opening orders x both roles, plus mixed kinds / positions "
+            "(thorough: all position pairs). After the faults the raw peer opens a healthy uni and a healthy bidi stream, sends a datagram "
+            "and finally a clean close capsule while the application keeps accepting; every victim must be delivered (own bytes) and the "
+            "close reported as ApplicationClosed(0, \"\") before a 10 s virtual horizon with keep-alives on.",
+            SIM_NOTE + " Quiescence at the virtual horizon is taken as 'never'.",
+            "exhaustive fault enumeration executed on the real stack under a deterministic simulated environment"),
+    "C08": ("simx", "exploration", "DESIGN.md §6-C08",
+            "Opener (raw peer or wtransport peer) opens N uniquely tagged streams (N in 1,2,3,5,9 and 12 = 3x a concurrent-stream limit of "
+            "4) in 4 uni/bidi patterns towards either role; the application accepts with 1-3 concurrent tasks, with 10 ms / 1 s between "
+            "accepts, with every accept future polled 0..3 times then dropped and reissued, and with that cancellation applied at each single "
+            "stream index; plus select! start deviations on the worker loop. Oracle: the multiset of (kind, stream id, bytes) returned by "
+            "accept calls equals the multiset opened - nothing lost, duplicated, invented or carrying another stream's bytes - before the horizon.",
+            SIM_NOTE, "exhaustive enumeration of a bounded scenario grid incl. cancellation points, executed on the real stack under a deterministic simulated environment"),
     "C16": ("simx", "exploration", "DESIGN.md §6-C16",
             "A raw quinn peer records every byte the endpoint emits (both roles) over a grid of requests, decisions, header singletons, "
             "stream sets, datagram lengths and CONNECT stream ids (session ids crossing varint lengths) and the independent reference codec "
